@@ -1,0 +1,168 @@
+//go:build verif
+// +build verif
+
+package deflate
+
+import (
+	"fmt"
+	"reflect"
+	"sync"
+	"unsafe"
+)
+
+// Red zones around the Writer's own slices. The assembly packers and match
+// finders receive plain slice headers, so a slice re-allocated in the middle of
+// a larger array behaves exactly like the original one, while stores past
+// either end land in a patterned zone that VerifCheckGuards compares.
+
+const verifZone = 256
+
+type verifGuard struct {
+	name  string
+	whole []byte // zone | payload | zone
+	n     int    // payload bytes
+}
+
+var (
+	verifMu     sync.Mutex
+	verifGuards = map[*Writer][]*verifGuard{}
+)
+
+func verifBytesPtr(b []byte) unsafe.Pointer {
+	if cap(b) == 0 {
+		return nil
+	}
+	return unsafe.Pointer(&b[:1][0])
+}
+
+func verifTokensPtr(b []token) unsafe.Pointer {
+	if cap(b) == 0 {
+		return nil
+	}
+	return unsafe.Pointer(&b[:1][0])
+}
+
+func verifPattern(i int) byte { return byte(0xA5 ^ (i * 7)) }
+
+func verifNewGuard(name string, n int) *verifGuard {
+	g := &verifGuard{name: name, n: n, whole: make([]byte, verifZone+n+verifZone)}
+	for i := 0; i < verifZone; i++ {
+		g.whole[i] = verifPattern(i)
+		g.whole[verifZone+n+i] = verifPattern(i)
+	}
+	return g
+}
+
+func (g *verifGuard) payload() []byte { return g.whole[verifZone : verifZone+g.n : verifZone+g.n] }
+
+func (g *verifGuard) owns(p unsafe.Pointer) bool {
+	return p == unsafe.Pointer(&g.whole[verifZone])
+}
+
+func (g *verifGuard) check() error {
+	for i := 0; i < verifZone; i++ {
+		if g.whole[i] != verifPattern(i) {
+			return fmt.Errorf("red zone before %s damaged at offset -%d", g.name, verifZone-i)
+		}
+		if g.whole[verifZone+g.n+i] != verifPattern(i) {
+			return fmt.Errorf("red zone after %s damaged at offset +%d", g.name, i)
+		}
+	}
+	return nil
+}
+
+func verifGuardBytes(name string, s []byte) ([]byte, *verifGuard) {
+	g := verifNewGuard(name, cap(s))
+	p := g.payload()
+	copy(p, s[:cap(s)])
+	return p[:len(s)], g
+}
+
+func verifGuardTokens(name string, s []token) ([]token, *verifGuard) {
+	g := verifNewGuard(name, cap(s)*4)
+	p := g.payload()
+	var t []token
+	if cap(s) > 0 {
+		h := (*reflect.SliceHeader)(unsafe.Pointer(&t))
+		h.Data = uintptr(unsafe.Pointer(&p[0]))
+		h.Len = cap(s)
+		h.Cap = cap(s)
+		copy(t, s[:cap(s)])
+	}
+	return t[:len(s):cap(s)], g
+}
+
+// VerifInstallGuards re-homes the already constructed Writer's buffers between
+// red zones, keeping every len and cap. It reports how many buffers it guards
+// (0 for writers that delegate to compress/flate).
+func (w *Writer) VerifInstallGuards() int {
+	var gs []*verifGuard
+	var g *verifGuard
+	switch c := w.lc.(type) {
+	case *dynCompressor:
+		c.buffer, g = verifGuardBytes("dyn.buffer", c.buffer)
+		gs = append(gs, g)
+		c.buf.output, g = verifGuardBytes("dyn.output", c.buf.output)
+		gs = append(gs, g)
+		c.tokens, g = verifGuardTokens("dyn.tokens", c.tokens)
+		gs = append(gs, g)
+	case *huffmanOnly:
+		c.buffer, g = verifGuardBytes("huff.buffer", c.buffer)
+		gs = append(gs, g)
+		c.buf.output, g = verifGuardBytes("huff.output", c.buf.output)
+		gs = append(gs, g)
+	}
+	verifMu.Lock()
+	verifGuards[w] = gs
+	verifMu.Unlock()
+	return len(gs)
+}
+
+// VerifCheckGuards compares the red zones of every buffer that still lives in
+// its guarded array. A buffer the Writer legitimately re-allocated (append
+// beyond capacity) is skipped.
+func (w *Writer) VerifCheckGuards() error {
+	verifMu.Lock()
+	gs := verifGuards[w]
+	verifMu.Unlock()
+	if len(gs) == 0 {
+		return nil
+	}
+	ptr := func(name string) unsafe.Pointer {
+		switch c := w.lc.(type) {
+		case *dynCompressor:
+			switch name {
+			case "dyn.buffer":
+				return verifBytesPtr(c.buffer)
+			case "dyn.output":
+				return verifBytesPtr(c.buf.output)
+			case "dyn.tokens":
+				return verifTokensPtr(c.tokens)
+			}
+		case *huffmanOnly:
+			switch name {
+			case "huff.buffer":
+				return verifBytesPtr(c.buffer)
+			case "huff.output":
+				return verifBytesPtr(c.buf.output)
+			}
+		}
+		return nil
+	}
+	for _, g := range gs {
+		if !g.owns(ptr(g.name)) {
+			continue
+		}
+		if err := g.check(); err != nil {
+			return err
+		}
+	}
+	return nil
+}
+
+// VerifDropGuards forgets the guards of w.
+func (w *Writer) VerifDropGuards() {
+	verifMu.Lock()
+	delete(verifGuards, w)
+	verifMu.Unlock()
+}
